@@ -33,6 +33,9 @@ def bounded_check(clauses):
     def rp_(w):
         import types
         from ..rt import c01 as rt
+        r0 = resv.int_grid_replay(w)
+        if r0.get("reproduced"):
+            return r0
         r_ = rt.run(types.SimpleNamespace(tier="quick", seed=0))
         for v in r_["violations"]:
             if v.get("clause") in clauses and v.get("key") != "mono.time:random-grid:single":
@@ -72,13 +75,29 @@ def build(ctx):
             return S.M.app(tm.app("pf_sched", [i_]))
 
         def init(mk=mk, ideal=ideal):
-            S = mk()
+            v = init1(mk, ideal, "array")
+            if v.status != be.PROVED or ideal:
+                return v
+            for sch, intgrid in (("none", False), ("none", True)):
+                if intgrid:
+                    with resv.int_time():
+                        v2 = init1(mk, ideal, sch)
+                else:
+                    v2 = init1(mk, ideal, sch)
+                if v2.status != be.PROVED:
+                    v2.detail = f"[scalar frac-face setting{', integer-typed time grid' if intgrid else ''}] " + v2.detail
+                    return v2
+            return v
+
+        def init1(mk, ideal, sch):
+            S = mk(sch) if not ideal else mk()
             row0 = S.pre((tm.const(0), j))
             if ideal:
                 goal = tm.implies(resv.inr(j, S.n), tm.eq(row0, ONE))
                 return with_models(be.prove_smt(goal, pre(S)), S.o)
-            m0 = mf(S, tm.const(0))
-            hyp = pre(S) + resv.mono_facts(S, [tm.app("pf_sched", [tm.const(0)]), tm.var("p_i")]) + [tm.le(tm.app("pf_sched", [tm.const(0)]), tm.var("p_i"))]
+            pf0 = tm.app("pf_sched", [tm.const(0)]) if sch == "array" else tm.var("p_f")
+            m0 = S.M.app(pf0)
+            hyp = pre(S) + resv.mono_facts(S, [pf0, tm.var("p_i")]) + [tm.le(pf0, tm.var("p_i"))]
             goal = tm.implies(resv.inr(j, S.n), tm.land(tm.le(m0, row0), tm.le(row0, S.m_i), tm.implies(tm.eq(j, tm.const(0)), tm.eq(row0, m0))))
             return with_models(be.prove_smt(goal, hyp, want={"j": j}), S.o)
 
